@@ -114,15 +114,19 @@ fn issue(cx: &mut Cx, mode: Mode, s: u64, suite: Suite, sk: Bytes, pk: Bytes, he
 }
 
 fn deliver(cx: &mut Cx, holder: NodeId, f: CredFrame, fault: String, ideal: Shared) {
+    let Some(item) = cx.item() else { return };
+    cx.log(format!("item {item}: deliver {fault}"));
     let f2 = f.clone();
     cx.step(holder, "verify", StepOpts::default(), move || {
         if f2.blind_endpoint { api::verify_blind(f2.suite, &f2.pk, &f2.sig, &f2.header, &f2.msgs, &None, &None) } else { api::verify(f2.suite, &f2.pk, &f2.sig, &f2.header, &f2.msgs) }
     }, move |cx, st| {
+        cx.cur_item = Some(item);
         let verdict = ideal.borrow().judge_sig(f.suite, f.blind_endpoint, &f.pk, &f.sig, &f.header, &f.msgs, &None, &None);
         let seen = seen_of(&st.out);
         cx.eval(&[f.suite.name().as_bytes(), &[f.blind_endpoint as u8], &f.pk, &f.sig, zksim_core::wire::norm(&f.header), &lnorm(&f.msgs).concat(), &(lnorm(&f.msgs).len() as u64).to_le_bytes()], seen != Seen::Boundary);
         let entry = if f.blind_endpoint { "verify_blind_sign" } else { "verify" };
         settle(cx, "C01", "C02", entry, &fault, verdict, &seen, || format!("suite={} pk={} sig={} header={} msgs={}", f.suite.name(), hexs(&f.pk), hexs(&f.sig), opt_s(&f.header), list_s(&f.msgs)));
+        cx.cur_item = None;
     });
 }
 
